@@ -23,7 +23,8 @@ TECHNIQUE = "bounded exhaustive enumeration of structured unitary families vs. c
 LEVEL_TEXT = ("Every member of finite structured families of 1-, 2-, 3- and 4-qubit unitaries (Cliffords, rotations over the "
               "angle alphabet, locally dressed 0/1/2/3-CNOT cores, the class-boundary grid exp(i(aXX+bYY+cZZ)) with "
               "eps in {1e-3,1e-6,1e-9}, Toffoli/QFT/controlled/block-diagonal n-qubit matrices) is synthesised by the real "
-              "one_/two_/multi_qubit_decomposition functions and their QubitUnitary rules and multiplied back out.")
+              "one_/two_/multi_qubit_decomposition functions and their QubitUnitary rules and multiplied back out; the two-qubit "
+              "families also with the synthesis traced by jax.jit.")
 LEVEL_NOTE = ("Reference = numpy product of closed-form gate matrices (mc.refgates / mc.x_synth); 'every unitary' is reduced "
               "to these families (dense at special points, sparse elsewhere); equality tolerance 1e-8 (the implementation's own "
               "np.allclose working precision); two-qubit synthesis is also run traced by jax.jit (axis 2q-jit); capture / qjit paths and differentiability are not explored.")
